@@ -54,12 +54,6 @@ theorem subtree_grammatical {g : Grammar} {t s : Cel} (ht : GrammarTree g t) (hs
     GrammarTree g s :=
   subtrees_conf t ht s hs
 
-/-- the extractor before fix F5: same if-chains, every `raise` propagates -/
-def unrepairedDispatch : Dispatch :=
-  { modelDispatch with
-    dotLen := .raise, dotRoot := .raise, argLen := .raise, argRoot := .raise, idxLen := .raise,
-    idxEmpty := .raise, idxTerm := .raise, idxRoot := .raise, primLen := .raise, primKind := .raise }
-
 /-- …is not complete for celpy's grammar, -/
 theorem unrepaired_incomplete : DispatchComplete rules unrepairedDispatch = false := by decide
 
@@ -100,6 +94,45 @@ theorem step_deps_are_names (keys : List String) :
       cases hn : m.name with
       | none => exact absurd hn this
       | some nm => simp [hn, ih]
+
+/-! ## the optional group of `INPUTS_NAME_PATTERN`: a `None` name is reported, never raised -/
+
+theorem inputs_pattern_matches_source : Koreo.Gen.CelTables.inputsPattern = inputsPatternSource := by decide
+
+/-- `_prepare_overlays` formats each missing name with an f-string and does not sort the set -/
+theorem missing_join_style_matches_source : Koreo.Gen.CelTables.missingJoinStyle = modelJoinStyle := by decide
+
+/-- identifiers that merely start with `inputs` (and `inputs[".x"]`) match the pattern without a name -/
+theorem inputs_name_can_be_none :
+    inputsMatch "inputs2.zone" = some ⟨none⟩ ∧ inputsMatch "inputs..zone" = some ⟨none⟩ ∧
+    inputsMatch "inputs.zone.id" = some ⟨some "zone"⟩ ∧ inputsMatch "steps.zone" = none := by decide
+
+/-- a `None` name can never be provided: it is always among the missing inputs -/
+theorem none_name_always_missing (keys provided : List String) (h : none ∈ neededInputs keys) :
+    none ∈ missingInputs keys provided := by
+  unfold missingInputs
+  exact List.mem_filter.2 ⟨h, rfl⟩
+
+/-- with the source's way of building the message the input check of an `overlayRef` never raises,
+    whatever the ValueFunction's keys and the provided inputs are; a `None` name is printed as `"None"` -/
+theorem overlay_inputs_check_total (keys provided : List String) :
+    ∃ r, overlayInputsCheck modelJoinStyle keys provided = .ok r := by
+  unfold overlayInputsCheck modelJoinStyle
+  simp only
+  split
+  · exact ⟨none, rfl⟩
+  · exact ⟨some ((missingInputs keys provided).map fun m => "\"" ++ pyFormat m ++ "\""),
+      by simp [missingNames, Except.map]⟩
+
+theorem none_name_message : (overlayInputsCheck modelJoinStyle ["inputs.x", "inputs2.zone"] ["y"]).toOption
+    = some (some ["\"x\"", "\"None\""]) := by decide
+
+/-- the mechanism of seeded change C20-t2: sorting the names (or joining them raw) raises as soon
+    as a `None` name sits next to an ordinary missing one -/
+theorem sorted_or_raw_join_would_raise :
+    (overlayInputsCheck (.formatEach true) ["inputs.x", "inputs2.zone"] []).toOption = none ∧
+    (overlayInputsCheck (.raw false) ["inputs2.zone"] []).toOption = none ∧
+    (overlayInputsCheck (.formatEach true) ["inputs.x", "inputs.y"] []).toOption.isSome = true := by decide
 
 /-! ## the schema gate comes first -/
 
